@@ -379,7 +379,7 @@ func runMeta(c *engine.Ctx) engine.Result {
 			}
 		}
 		for _, pos := range []string{"first", "middle", "then-appended"} {
-			for _, ex := range []string{"one", "twenty", "duplicates"} {
+			for _, ex := range []string{"none", "one", "twenty", "duplicates"} {
 				for _, sto := range []string{world.Inmem, world.Ordered} {
 					cases = append(cases, metaCase{Kind: "honest", State: "flat", Extras: ex, Storage: sto, Seed: rng.Int63(), PrefPos: pos})
 					cases = append(cases, metaCase{Kind: "rogue", State: "nested", Extras: ex, Storage: sto, StateSig: "valid", Seed: rng.Int63(), PrefPos: pos})
